@@ -610,10 +610,15 @@ func (w *world) checkCond(cc *condCase, st stateInfo, gbVariant int, stats *case
 		}
 	}
 	schema := w.keysInSchema(mname)
-	keyMissing := false
+	keyMissing, keyKnown, negMissing := false, false, false
 	for _, a := range cc.Parsed.atoms(nil) {
 		if !schema[a.Key] {
 			keyMissing = true
+			if a.Neg {
+				negMissing = true
+			}
+		} else {
+			keyKnown = true
 		}
 	}
 	ctx := func() string {
@@ -642,16 +647,23 @@ func (w *world) checkCond(cc *condCase, st stateInfo, gbVariant int, stats *case
 	}
 	gs, ws := setString(got), setString(want)
 	if keyMissing {
-		// a key no series of the metric carries (yet): lindb answers "tag key not found" for the whole
-		// statement; nothing documents what a condition over an unknown key selects -> informational
+		// a key no series of the metric carries (yet). query/operator/tag_values_lookup.go documents: "the filter
+		// matches nothing here, other filters of the condition still may" (only a condition none of whose keys is
+		// known answers "tag key not found" == nothing); series_filtering.go: not(filter of such a key) selects
+		// nothing. That is the brute-force evaluation (no series has the key), so the ordinary oracle applies:
+		// the atoms over known keys of the same condition decide.
 		stats.classes["key_not_in_schema"] = true
-		if gs != ws && len(got) != 0 {
-			t.Fatalf("condition over a tag key the metric does not have returned neither the brute-force answer nor nothing\n got  %s\n want %s\n%s", gs, ws, ctx())
+		switch {
+		case !keyKnown:
+			stats.classes["key_not_in_schema:no_known_key"] = true
+		case len(want) > 0:
+			stats.classes["key_not_in_schema:known_atoms_select"] = true
+		default:
+			stats.classes["key_not_in_schema:known_atoms_select_nothing"] = true
 		}
-		if gs != ws {
-			stats.classes["key_not_in_schema_answer_empty"] = true
+		if negMissing {
+			stats.classes["key_not_in_schema:negated"] = true
 		}
-		return
 	}
 	if gs != ws {
 		var missing, extra []string
